@@ -53,6 +53,46 @@ def pre_lean(p):
     raise ValueError(k)
 
 
+def _tdiv(n, d):
+    q = abs(n) // abs(d)
+    return q if (n >= 0) == (d >= 0) else -q
+
+
+PYSPEC = {
+    "Spec.add": lambda a, b: a + b, "Spec.sub": lambda a, b: a - b, "Spec.mul": lambda a, b: a * b, "Spec.neg": lambda a: -a,
+    "Spec.iabs": lambda a: abs(a), "Spec.land": lambda a, b: a & b, "Spec.lor": lambda a, b: a | b, "Spec.lxor": lambda a, b: a ^ b,
+    "Spec.tdivQ": _tdiv, "Spec.tmodR": lambda n, d: n - d * _tdiv(n, d),
+    "Spec.fdivQ": lambda n, d: n // d, "Spec.fmodR": lambda n, d: n - d * (n // d),
+    "Spec.cdivQ": lambda n, d: -((-n) // d), "Spec.cmodR": lambda n, d: n - d * (-((-n) // d)),
+    "Spec.edivQ": lambda n, d: (n - (n % abs(d))) // d, "Spec.emodR": lambda n, d: n % abs(d),
+    "Spec.shl": lambda a, k: a << k, "Spec.shr": lambda a, k: _tdiv(a, 1 << k),
+    "Spec.gcd": lambda a, b: math.gcd(a, b), "Spec.pow": lambda b, e: b ** e,
+}
+
+
+def py_eval(expr, env):
+    """evaluate a (tiny) Lean spec expression `(Spec.f a b)` / variable / literal on python ints."""
+    expr = expr.strip()
+    toks = re.findall(r"\(|\)|[^\s()]+", expr)
+    pos = [0]
+
+    def parse():
+        t = toks[pos[0]]
+        pos[0] += 1
+        if t == "(":
+            f = toks[pos[0]]
+            pos[0] += 1
+            args = []
+            while toks[pos[0]] != ")":
+                args.append(parse())
+            pos[0] += 1
+            return PYSPEC[f](*args)
+        if re.fullmatch(r"-?\d+", t):
+            return int(t)
+        return env[t]
+    return parse()
+
+
 def pre_py(p, env):
     k = p[0]
     if k == "nz":
@@ -68,7 +108,7 @@ def pre_py(p, env):
         return math.gcd(env[p[1]], env[p[2]]) == 1
     if k == "fits":
         lo, hi = RANGE[p[1]]
-        return lo <= env[p[2]] <= hi
+        return lo <= py_eval(p[2], env) <= hi
     if k == "small":
         return env[p[1]] <= p[2]
     raise ValueError(k)
